@@ -439,3 +439,27 @@ Definition first_indices (a : arr2 Z) : list nat := map (fun k => first_index k 
 (* a[idx] = True, idx an array of positions: IndexError (tag 34) when a position is outside the array *)
 Definition set_true_at (a : list bool) (idx : list nat) : result (list bool) :=
   if forallb (fun i => Nat.ltb i (length a)) idx then Ok (scatter a idx (repeat true (length idx))) else Err 34.
+
+(* ---- Screen.concat, Screen.single_treatment_effects (data.py; links in Proofs/C14SourceLeftovers.v) ---- *)
+(* Screen.concat: an empty list is refused (24), ONE screen is returned as it is (the same object), otherwise the screens are
+   combined from the left by Screen.combine (each step a new Screen) *)
+Fixpoint screen_concat_from (acc : screen) (r : list screen) : result screen :=
+  match r with
+  | [] => Ok acc
+  | x :: r' => dor a <- screen_combine acc x; screen_concat_from a r'
+  end.
+Definition screen_concat (ss : list screen) : result screen :=
+  match ss with
+  | [] => Err 24
+  | s :: r => screen_concat_from s r
+  end.
+(* Screen.single_treatment_effects: the effect array built from the screen's sample ids, treatment ids and observations by
+   create_single_treatment_effect_array (any function effect_array here; E = its row type); a KeyError of that construction
+   (tag key_error: a (sample, treatment) pair without an entry in the effect map) is caught and the property is None, any
+   other exception passes *)
+Definition screen_single_effects {E : Type} (key_error : Z)
+    (effect_array : list Z -> list (list Z) -> list Z -> result (list E)) (s : screen) : result (option (list E)) :=
+  match effect_array (s_sids s) (s_tids s) (map r_obs (s_rows s)) with
+  | Ok a => Ok (Some a)
+  | Err t => if t =? key_error then Ok None else Err t
+  end.
